@@ -1,6 +1,7 @@
 import Abmarl.Lemmas.Broadcast
 import Abmarl.Lemmas.BroadcastObs
 import Abmarl.Lemmas.BroadcastStep
+import Abmarl.Lemmas.BroadcastDeliv
 /-!
 # `BroadcastSim` (`abmarl/examples/sim/comms_blocking.py`) inside the model: C02, C03, C08
 
@@ -38,15 +39,18 @@ Proved:
   in the sense of the specification (`BC.reaches`: another active agent within the broadcast range, encoding allowed by
   the mapping, on a cell the rule of C10 does not hide) — nothing is delivered that did not reach.
 
+* **delivery, one scan** `broadcast_delivery_complete`, `broadcast_delivery`: conversely every reached agent IS in the
+  returned list, and the list has no repetitions (an agent stands in one cell, a cell lists an agent once): the members
+  of the scan are EXACTLY the reached agents, once each (`BC.determine_complete`, `BC.determine_nodup`,
+  `Lemmas/BroadcastDeliv.lean`).
+
 NOT proved (statements kept here; the judge evaluates them at run time on every trace of the correspondence stream):
 
-* `broadcast_delivery` (full) — `∀ cfg w0 s acts s', Good cfg w0 s → cfgHypb cfg s.w = true → BC.step cfg s acts = .ok s' →
+* `broadcast_delivery_step` — `∀ cfg w0 s acts s', Good cfg w0 s → cfgHypb cfg s.w = true → BC.step cfg s acts = .ok s' →
      ∃ rv, s.recv = some rv ∧ s'.recv = some (BC.recvAfter cfg s.w s.msgs acts rv)`:
   a receiving list grows by EXACTLY the senders that reach the receiver, once each, in the order of the action dict.
-  Proved: the "only if" half at the level of one scan (`broadcast_delivery_partial`).  Missing: completeness (a reached
-  agent is in the scan: the converse reading of `BC.determine_eq` with `mem_cell_iff_pos`), `Nodup` of the scan (an agent
-  stands in one cell: `List.nodup_flatMap`), and the bookkeeping that turns the per-sender `dictSet`s into the
-  per-receiver `filterMap` of `recvAfter`.
+  Proved: per scan, membership iff reached and `Nodup` (`broadcast_delivery`).  Missing: the bookkeeping that turns the
+  per-sender `dictSet`s into the per-receiver `filterMap` of `recvAfter`.
 * `broadcast_hist` — `∀ cfg w0 ops, bcPre cfg w0 ops = true →
      specBC cfg w0 (zipOps ops (runOps cfg (init w0) ops).1) = true`.  Missing: full delivery (every other clause of
   `judge1` is one of the theorems of this file).  The driver evaluates `specBC` on the model's own exact run of every
@@ -132,6 +136,21 @@ theorem broadcast_delivery_partial (cfg : BC.Cfg) (w : World) (a : Aid) (l : Lis
     (hl : cfg.mapping.lookup (w.encOf a) = some l) (hp : w.inGrid (w.stOf a).pos = true) :
     ∃ tos, BC.determine cfg w a = .ok tos ∧ ∀ b ∈ tos, BC.reaches cfg w a b = true :=
   ⟨_, BC.determine_eq hl hp, fun _ hb => BC.determine_sound hI hl hp (BC.determine_eq hl hp) hb⟩
+
+/-- **delivery, completeness half**: every agent the broadcast reaches in the sense of the specification (`BC.reaches`:
+in range, encoding allowed by the mapping, not hidden by a blocking agent per `Mask.hiddenSpec`, not the sender) IS in
+the list `determine_broadcast` returns — the converse of `broadcast_delivery_partial` -/
+theorem broadcast_delivery_complete (cfg : BC.Cfg) (w : World) (a : Aid) (l : List Int) (hI : w.WInv = true)
+    (hl : cfg.mapping.lookup (w.encOf a) = some l) (hp : w.inGrid (w.stOf a).pos = true) :
+    ∃ tos, BC.determine cfg w a = .ok tos ∧ ∀ b, BC.reaches cfg w a b = true → b ∈ tos :=
+  ⟨_, BC.determine_eq_scan hl hp, fun _ hr => BC.determine_complete hI hl hp hr⟩
+
+/-- **delivery, one scan**: `determine_broadcast` returns a list without repetitions whose members are EXACTLY the
+agents the broadcast reaches -/
+theorem broadcast_delivery (cfg : BC.Cfg) (w : World) (a : Aid) (l : List Int) (hI : w.WInv = true)
+    (hl : cfg.mapping.lookup (w.encOf a) = some l) (hp : w.inGrid (w.stOf a).pos = true) :
+    ∃ tos, BC.determine cfg w a = .ok tos ∧ tos.Nodup ∧ ∀ b, b ∈ tos ↔ BC.reaches cfg w a b = true :=
+  ⟨_, BC.determine_eq_scan hl hp, BC.determine_nodup hI hp, BC.mem_scan_iff hI hl hp⟩
 
 /-! ## C08 -/
 
@@ -235,5 +254,15 @@ example :
 example : cfgOKb exBCWorld3 = true ∧ exBCWorld3.vitalsAlive = true ∧
     BC.compOKb exBCWorld3 (.position .position {}) = true := by
   refine ⟨by decide +kernel, by decide +kernel, by decide +kernel⟩
+
+/-- non-vacuity of `broadcast_delivery` on the world with the blocker: the hypotheses hold for sender 0, the scan
+returns exactly `[2]` (agent 1 is behind the wall, agent 3 is the wall: its encoding is not allowed), and `BC.reaches`
+says the same of every agent -/
+example :
+    exBCWorld3.WInv = true ∧ exBCCfg3.mapping.lookup (exBCWorld3.encOf 0) = some [1] ∧
+    exBCWorld3.inGrid (exBCWorld3.stOf 0).pos = true ∧
+    (match BC.determine exBCCfg3 exBCWorld3 0 with | .ok tos => tos == [2] | .error _ => false) = true ∧
+    (List.range 4).map (BC.reaches exBCCfg3 exBCWorld3 0) = [false, false, true, false] := by
+  refine ⟨by decide +kernel, by decide +kernel, by decide +kernel, by decide +kernel, by decide +kernel⟩
 
 end Abmarl
